@@ -1,6 +1,9 @@
 package main
 
-import "fmt"
+import (
+	"fmt"
+	"strings"
+)
 
 func ruleC14(c *Check, p *Prog) {
 	c.Explanation = "Decides only the structural rejection chain, each link a necessary condition (cut any one and a stuck-at source can pass): " +
@@ -24,6 +27,7 @@ func ruleC14(c *Check, p *Prog) {
 			c.Fail("R-CHAIN-DECIDE", ref.Name, "-", "workflow not recognised")
 			continue
 		}
+		d.CountOnly, d.PassOnly = true, true
 		checkDecide(c, p, ref.Name, d, ref.S, ref.Items, nil, seqErrorReturn(d))
 		rl, _ := roundLenOf(p, d.Round)
 		checkAccumulate(c, p, ref.Name, d, d.X.S, d.Sample.Body, d.RoundCall, iterTerm(d.X.S, d.Sample), d.Counters, d.Dist, false, rl)
@@ -33,6 +37,7 @@ func ruleC14(c *Check, p *Prog) {
 		if d == nil || !d.ok {
 			continue
 		}
+		d.CountOnly, d.PassOnly = true, true
 		checkDecide(c, p, ref.Name, d, ref.S, ref.Items, nil, fastErrorReturn(d))
 		rl, _ := roundLenOf(p, d.Round)
 		checkAccumulate(c, p, ref.Name+"/worker", d, d.X.S, d.JobLoop.Body, d.RoundCall, d.RecvTok, d.Counters, d.Dist, true, rl)
@@ -51,8 +56,8 @@ func ruleC14(c *Check, p *Prog) {
 		}
 		c.Expect(okT, "R-CHAIN-THRESHOLD", "Threshold", p.Pos(fn.Pos()), "Threshold(20) = 19 > 0 and Threshold(50) = 48 > 0: an item with pass count 0 fails", detail)
 	}
-	// (iii)
-	ruleC11sub(c, p)
+	// (iii) single-shot: the verdict is P >= Alpha of the poker test of exactly the bytes read (the m-selection borders do not matter here)
+	c14Single(c, p)
 	// (iv)
 	checkEquiv(c, p, "R-CHAIN-POKER-BYTES", "PokerTestBytes", eqSpec{Pkg: pkgRoot, Name: "PokerTestBytes", RefName: "PokerTestBytes", Dom: withParam(domLen(16, 5000), 1, 2, 9)}, "every byte (m=8) / both nibbles of every byte (m=4) is counted")
 }
@@ -62,4 +67,14 @@ func ruleC11sub(c *Check, p *Prog) {
 	ex := c.Explanation
 	ruleC11(c, p)
 	c.Explanation = ex
+}
+
+func c14Single(c *Check, p *Prog) {
+	tmp := NewCheck("C11", c.Tier, c.Seed)
+	ruleC11(tmp, p)
+	for _, o := range tmp.Obls {
+		if o.Rule == "R-SD-READ" || o.Rule == "R-SD-VERDICT" {
+			c.add(o.Status, o.Rule, strings.SplitN(o.Key, "@", 2)[1], o.Where, o.Detail)
+		}
+	}
 }
